@@ -2,6 +2,7 @@
 from __future__ import annotations
 
 import ast
+import re
 import configparser
 from typing import Dict, List, Optional, Set, Tuple
 
@@ -658,7 +659,13 @@ def g_rules(p: Project, rep: Report):
                         t = text(d.value) + f"[{text(r.slice)}]"
             if "defaults['clientuid']" in t or t == "defaults['clientuid']":
                 continue
-            if t in ("lib_cfg.get(opt, DEFAULTS[opt])", "ChainMap(lib_cfg, DEFAULTS)[opt]"):
+            # the baseline mapping by ROLE: a local bound to read_config(LIBCFG, ..) (whatever its name), or that call
+            libnames = {nm_ for nm_, ds_ in local_defs(mk).items() for d_ in ds_ if d_.kind == "assign" and isinstance(d_.value, ast.Call) and text(d_.value.func) == "read_config" and d_.value.args and text(d_.value.args[0]) == "LIBCFG"}
+            t_role = t
+            for nm_ in sorted(libnames, key=len, reverse=True):
+                t_role = re.sub(rf"\b{re.escape(nm_)}\b", "lib_cfg", t_role)
+            t_role = re.sub(r"read_config\(LIBCFG, \w+\)", "lib_cfg", t_role)
+            if t_role in ("lib_cfg.get(opt, DEFAULTS[opt])", "ChainMap(lib_cfg, DEFAULTS)[opt]"):
                 cmp_ok = True
             elif "DEFAULTS" in t:
                 cmp_ok = False
